@@ -276,6 +276,10 @@ def dangling_rule(prog, res):
                 continue
             n += 1
             kind, path = root_of(f, r['ch'][0])
+            rv_ = f.nodes[f.strip(r['ch'][0], 'all')]
+            if rt.endswith('*') and (rv_['k'] in ('CXXNullPtrLiteralExpr', 'GNUNullExpr', 'StringLiteral') or str(rv_.get('cv')) == '0'):
+                res.ok('dangling', f.sig.split('::')[-1], f.loc(r['id']), 'returns a null pointer / a string literal (static storage)', function=f.sig, expr='return@%d' % r['id'], nontrivial=False)
+                continue
             if rt.endswith('*') and _c18.as_new(f, r['ch'][0]) is not None:
                 res.ok('dangling', f.sig.split('::')[-1], f.loc(r['id']), 'returns a fresh heap allocation (ownership passes to the caller)', function=f.sig, expr='return@%d' % r['id'], nontrivial=False)
                 continue
